@@ -262,7 +262,8 @@ func (msg *MessageAuth) FromBytes(src []byte) error {
 
 		chunk.Length = src[p]
 		if (q > 1 && i < q-1 && int(chunk.Length) != MessageChunkBytesMax) ||
-			(l < p+2+int(chunk.Length)) || int(chunk.Length) < MessageChunkBytesMin {
+			(l < p+2+int(chunk.Length)) || int(chunk.Length) < MessageChunkBytesMin ||
+			(i == q-1 && l != p+2+int(chunk.Length)) {
 			return ErrIncorrectSourceBytes
 		}
 
